@@ -331,39 +331,94 @@ Definition ae_delivered (recomp : bool) (ae ce ct cc : str) : str :=
     end
   else ce.
 
+Definition s_enc_part : str := bytes "<part of the encoded entry>".
+Definition s_enc_slice : sx := L [A (bytes "a-consistent-part-of-the-encoded-entry")].
+Definition ae_obs (status : Z) (d body edge : str) (n span cl : Z) : sx := L [I status; A d; A body; A edge; I n; I span; I cl].
+
+(* a Range request answered from an identity body of known length (setRangedHeaders + sendBody, as in Cache.serve_found) *)
+Definition ae_ranged (content : str) (rr : option rrange) (edge : str) (norigin : Z) : sx :=
+  let n := Z.of_nat (length content) in
+  let '(st, hs, rr') := set_ranged_headers rr n 200 in
+  match rr', Z.eqb st 206 with
+  | Some r, true =>
+    match send_slice content (rr_start r n) (rr_size r n) with
+    | Some b => ae_obs 206 [] b edge norigin (rr_size r n) (rr_size r n)
+    | None => ae_obs 206 [] [] edge norigin (rr_size r n) (rr_size r n)
+    end
+  | _, _ => ae_obs st [] content edge norigin (-1) (-1)
+  end.
+
 (* the cache keeps one entry per Accept-Encoding value (it is a key header), holding what was delivered to the
-   client that filled it; a later request with the same value is a hit on exactly that *)
-Fixpoint run_ae (recomp : bool) (ce ct cc content : str) (aes : list str) (seen : list (str * str)) : list sx :=
+   client that filled it; a later request with the same value is a hit on exactly that. A Range is honoured on a
+   fill only when the body is stored as the origin sent it (fix F41); on a hit it is cut out of the stored
+   representation - for a recompressed entry that is a part of the encoded bytes, whose length the model does not know *)
+Fixpoint run_ae (recomp : bool) (ce ct cc content : str) (aes rngs : list str) (seen : list (str * str)) : list sx :=
   match aes with
   | [] => []
   | ae :: rest =>
+    let rg := hd [] rngs in
+    let rr := if nonempty rg then get_range rg else None in
     match find (fun p => str_eqb (fst p) ae) seen with
-    | Some (_, d) => L [I 200; A d; A content; A (bytes "hit"); I 0] :: run_ae recomp ce ct cc content rest seen
+    | Some (_, d) =>
+      (match rr with
+       | Some _ => if nonempty d then s_enc_slice else ae_ranged content rr (bytes "hit") 0
+       | None => ae_obs 200 d content (bytes "hit") 0 (-1) (-1)
+       end) :: run_ae recomp ce ct cc content rest (tl rngs) seen
     | None =>
       let d := ae_delivered recomp (ae_value ae) ce ct cc in
-      L [I 200; A d; A content; A (bytes "miss"); I 1] :: run_ae recomp ce ct cc content rest ((ae, d) :: seen)
+      (match rr with
+       | Some _ => if str_eqb d ce && negb (nonempty ce) then ae_ranged content rr (bytes "miss") 1
+                   else ae_obs 200 d content (bytes "miss") 1 (-1) (-1)
+       | None => ae_obs 200 d content (bytes "miss") 1 (-1) (-1)
+       end) :: run_ae recomp ce ct cc content rest (tl rngs) ((ae, d) :: seen)
     end
   end.
 
 Definition run_aecache (x : sx) : sx :=
   L (run_ae (sx_bool (sx_nth 1 x)) (sx_str (sx_nth 2 x)) (sx_str (sx_nth 3 x)) (sx_str (sx_nth 4 x)) (sx_str (sx_nth 5 x))
-            (to_strs (sx_nth 6 x)) []).
+            (to_strs (sx_nth 6 x)) (to_strs (sx_nth 7 x)) []).
 
-Fixpoint mon_ae (ce content : str) (aes : list str) (obs : list sx) (i : nat) : sx :=
+(* a partial answer cut out of an encoded entry is compared only as far as it can be known: that it is a hit and
+   that its Content-Range span, its Content-Length and the bytes received agree (or that it is a 416) *)
+Definition ae_consistent_part (o : sx) : bool :=
+  let st := sx_int (sx_nth 0 o) in
+  (nonempty (sx_str (sx_nth 1 o)) && str_eqb (sx_str (sx_nth 3 o)) (bytes "hit") && Z.eqb (sx_int (sx_nth 4 o)) 0 &&
+   Z.eqb st 206 && str_eqb (sx_str (sx_nth 2 o)) s_enc_part && (0 <=? sx_int (sx_nth 5 o))%Z && Z.eqb (sx_int (sx_nth 5 o)) (sx_int (sx_nth 6 o)))
+  || (Z.eqb st 416 && Z.eqb (sx_int (sx_nth 4 o)) 0).   (* the named range lies outside the encoded entry *)
+
+Definition proj_aecache (x o : sx) : sx :=
+  L (map (fun p => if nonempty (fst p) && ae_consistent_part (snd p) then s_enc_slice else snd p)
+         (combine (to_strs (sx_nth 7 x)) (sx_list o))).
+
+Definition ae_fail (i : nat) (c : string) : sx := L [of_bool false; A (bytes c); A []; I (Z.of_nat i)].
+
+Fixpoint mon_ae (ce content : str) (aes rngs : list str) (obs : list sx) (i : nat) : sx :=
   match aes, obs with
   | ae :: aes', o :: obs' =>
     let d := sx_str (sx_nth 1 o) in
-    if negb (Z.eqb (sx_int (sx_nth 0 o)) 200) then mon_ae ce content aes' obs' (S i)
-    else if negb (str_eqb (sx_str (sx_nth 2 o)) content)
-    then L [of_bool false; A (bytes "the content the client decodes is not the origin's content"); A []; I (Z.of_nat i)]
-    else if negb (str_eqb d ce || str_eqb d [] || contains (to_lower (ae_value ae)) (to_lower d))
-    then L [of_bool false; A (bytes "the delivered encoding is neither the origin's own nor one the client listed"); A []; I (Z.of_nat i)]
-    else mon_ae ce content aes' obs' (S i)
+    let st := sx_int (sx_nth 0 o) in
+    let rg := hd [] rngs in
+    if negb (str_eqb d ce || str_eqb d [] || contains (to_lower (ae_value ae)) (to_lower d))
+    then ae_fail i "the delivered encoding is neither the origin's own nor one the client listed"
+    else if Z.eqb st 200 then
+      (if negb (str_eqb (sx_str (sx_nth 2 o)) content) then ae_fail i "the content the client decodes is not the origin's content"
+       else mon_ae ce content aes' (tl rngs) obs' (S i))
+    else if Z.eqb st 206 then
+      (if negb (nonempty rg) then ae_fail i "a partial response to a request that named no range"
+       else if negb ((0 <=? sx_int (sx_nth 5 o))%Z && Z.eqb (sx_int (sx_nth 5 o)) (sx_int (sx_nth 6 o)))
+       then ae_fail i "a partial response whose Content-Range and Content-Length do not agree"
+       else if nonempty d then
+         (if str_eqb (sx_str (sx_nth 2 o)) s_enc_part then mon_ae ce content aes' (tl rngs) obs' (S i)
+          else ae_fail i "a partial response that was cut short of its declared length")
+       else if negb (sx_eqb (sx_nth 2 (ae_ranged content (get_range rg) [] 0)) (sx_nth 2 o))
+       then ae_fail i "the bytes of a partial response are not the bytes the client named"
+       else mon_ae ce content aes' (tl rngs) obs' (S i))
+    else mon_ae ce content aes' (tl rngs) obs' (S i)
   | _, _ => v_ok
   end.
 
 Definition mon_C06_ae (x o : sx) : sx :=
-  mon_ae (sx_str (sx_nth 2 x)) (sx_str (sx_nth 5 x)) (to_strs (sx_nth 6 x)) (sx_list o) 0.
+  mon_ae (sx_str (sx_nth 2 x)) (sx_str (sx_nth 5 x)) (to_strs (sx_nth 6 x)) (to_strs (sx_nth 7 x)) (sx_list o) 0.
 
 (* ---- C10 (unit): directives that forbid caching are recognised ---- *)
 Definition kf_C10 (values : list str) : string := "".   (* F20 is repaired (fix: b83a9fe): nothing is excused *)
